@@ -631,11 +631,17 @@ fn parse_non_constant_value(
                 IsographLangTokenKind::IntegerLiteral,
                 semantic_token_legend::ST_NUMBER_LITERAL,
             )?;
-            number
-                .map(|number| {
-                    NonConstantValue::Integer(number.parse().expect("Expected valid integer"))
-                })
-                .wrap_ok()
+
+            let embedded_location = number.location;
+
+            number.and_then(|number| match number.parse::<i64>() {
+                Ok(i) => NonConstantValue::Integer(i).wrap_ok(),
+                Err(_) => Diagnostic::new(
+                    "Expected an integer that fits in 64 bits".to_string(),
+                    embedded_location.to::<Location>().wrap_some(),
+                )
+                .wrap_err(),
+            })
         })?;
 
         to_control_flow::<_, Diagnostic>(|| {
